@@ -242,6 +242,31 @@ def run_case(case, ctx):
         ctx.tag("mi-cut-from-bigger-panel")
     except Exception as e:  # noqa
         ctx.tag("mi-cut-construction-failed:" + type(e).__name__)
+    # series cells that carry their own time labels (equal-length windows cut from longer recordings, stored newest first / interleaved):
+    # instance order is the row order of the panel, whatever the cells' time labels say
+    if case["cells"] == "S":
+        ni_, nc_, nt_ = arr.shape
+        for oname, starts in (("newest-first", [3 * (ni_ - 1 - i) for i in range(ni_)]), ("interleaved", [(7 * i) % (2 * ni_ + 1) for i in range(ni_)])):
+            own = pd.DataFrame({nm[j]: [pd.Series(arr[i, j].copy(), index=pd.RangeIndex(starts[i], starts[i] + nt_)) for i in range(ni_)] for j in range(nc_)})
+            own.index = df.index
+            order = sorted(range(nc_), key=lambda j: nm[j])
+            routes = {"nested->np3d": (lambda: D.from_nested_to_3d_numpy(own), arr),
+                      "nested->mi->nested": (lambda: D.from_multi_index_to_nested(D.from_nested_to_multi_index(own, instance_index="case", time_index="tp"), instance_index="case"), arr)}
+            if not case["labels"].startswith("unsorted"):
+                routes["nested->long->nested"] = (lambda: D.from_long_to_nested(D.from_nested_to_long(own, "case_id", "reading_id", "dim_id"), column_names=[nm[j] for j in order]), arr[:, order, :])
+            for rname, (fn, E) in routes.items():
+                try:
+                    out = fn()
+                    got = out if isinstance(out, np.ndarray) else _decode("nested", out)[0]
+                    same = got.shape == E.shape and np.array_equal(got, E)
+                    tix = isinstance(out, np.ndarray) or all(list(out.iloc[i, 0].index) == list(range(starts[i], starts[i] + nt_)) for i in range(ni_))
+                    detail = {"first_values_per_instance": got[:, 0, 0].tolist()[:6] if got.ndim == 3 else None, "expected": E[:, 0, 0].tolist()[:6]}
+                except Exception as e:  # noqa
+                    same, tix, detail = False, True, {"exception": repr(e)[:160]}
+                ctx.check("path.values", same, "convert:own-time-labels:%s:values-or-instance-order-differ" % rname,
+                          "a panel whose series cells carry their own time labels (%s windows) comes back with other values / instance order" % oname, arrangement=oname, **detail)
+                ctx.check("path.names", tix, "convert:own-time-labels:%s:cell-time-index-changed" % rname, "the cells' own time labels are not kept by the round trip", arrangement=oname)
+        ctx.tag("own-time-labels")
     # conversions that take labels for the result (instance labels, time index of the cells, column name): labels are put on, never aligned by
     X2 = arr[:, 0, :]
     ni_, nt_ = X2.shape
